@@ -266,6 +266,29 @@ func (c *Ctx) ModelCheck(module, cfg string, opts ...TLCOpt) (*tlc.Result, bool)
 	return res, true
 }
 
+// ModelRefutes runs an exhaustive config that TLC is EXPECTED to refute (the
+// design admits the listed open finding): it must report a violation of inv.
+// The counterexample is returned so that the caller can replay its schedule
+// on the real code. Anything else is a machinery/spec defect (inconclusive).
+func (c *Ctx) ModelRefutes(module, cfg, inv string, opts ...TLCOpt) (*tlc.Result, bool) {
+	if os.Getenv("VERIF_DEV_SKIP_MODEL") != "" {
+		return nil, true
+	}
+	o := c.tlcOpts(module, cfg, opts)
+	res, err := tlc.Run(o)
+	c.account(module, cfg, "exhaustive-expected-counterexample", res)
+	if err != nil {
+		c.Inconclusive(fmt.Sprintf("TLC %s/%s: %v", module, cfg, err))
+		return res, false
+	}
+	if res.Violated != inv {
+		c.Inconclusive(fmt.Sprintf("TLC %s/%s was expected to refute %s but reported violated=%q ok=%v", module, cfg, inv, res.Violated, res.OK))
+		return res, false
+	}
+	c.Logf("model %s/%s refutes %s as expected with a %d-step schedule (%d distinct states)", module, cfg, inv, len(res.CounterEx), res.Distinct)
+	return res, true
+}
+
 // RunTLC runs TLC and returns the raw result (for trace validation where the
 // caller interprets failures).
 func (c *Ctx) RunTLC(mode, module, cfg string, opts ...TLCOpt) (*tlc.Result, error) {
